@@ -108,25 +108,23 @@ Lemma size_long_short_unfold sp E S s :
                   else weight_of sp a * (sp_param sp / qsum (map Qabs (map (weight_of sp) S))))%Q p) S.
 Proof. reflexivity. Qed.
 
+Lemma list_case {A} (l : list A) : l = [] \/ exists x r, l = x :: r.
+Proof. destruct l; eauto. Qed.
+
 Section Rebalance.
+  (** generic in the weight vector [fw] the session sizes: all that matters is that its values are the
+      rules' weights of its keys and that its sorted keys are the assets the rules look at *)
   Variable sp : spec_cfg.
-  Hypothesis ND : NoDup (map fst (sp_weights sp)).
   Variable hold : list (string * Z).
   Variable snap : prices.
+  Variable fw : weights.
 
   Let w := sp_weights sp.
-  Let fw := merge_weights (map (fun a => (a, 0%Q)) (full_assets (map fst hold) (sp_universe sp))) w.
   Let K := map fst fw.
   Let W := wt w.
 
-  Lemma fw_repr : fw = map (fun a => (a, W a)) K.
-  Proof. apply (proj1 (proj2 (merged_weights_repr (map fst hold) (sp_universe sp) w ND))). Qed.
-
-  Lemma assets_are_sorted_keys st : st_hold st = hold -> assets_of sp st = ssort K.
-  Proof.
-    intro H. unfold assets_of. rewrite H. rewrite (sort_by_key_map (fun a => (a, tt))); [|reflexivity].
-    rewrite map_map. simpl. rewrite map_id. symmetry. apply assets_agree. exact ND.
-  Qed.
+  Hypothesis fw_repr : fw = map (fun a => (a, W a)) K.
+  Hypothesis assets_are_sorted_keys : forall st, st_hold st = hold -> assets_of sp st = ssort K.
 
   Lemma sums_agree (f : Q -> Q) : (qsum (map f (map W K)) == qsum (map f (map W (ssort K))))%Q.
   Proof. apply qsum_perm. apply Permutation_map. apply Permutation_map. apply Permutation_sym. apply ssort_perm. Qed.
@@ -137,7 +135,7 @@ Section Rebalance.
     lo_size E (sp_param sp) (sp_fee sp) (fun a => snap_find a snap) fw = Ok target ->
     size_long_only sp E' (ssort K) snap = Some target.
   Proof.
-    intros HE NE. unfold lo_size. rewrite fw_repr. destruct K as [|k0 K0] eqn:EK; [congruence|]. rewrite <- EK. clear NE.
+    intros HE NE. unfold lo_size. rewrite fw_repr. destruct (list_case K) as [EK|(k0 & K0 & EK)]; [congruence|]. clear NE.
     assert (NEmap : map (fun a => (a, W a)) K <> []) by (rewrite EK; discriminate).
     destruct (map (fun a => (a, W a)) K) as [|x0 X0] eqn:EM; [congruence|]. rewrite <- EM. clear NEmap.
     unfold lo_normalise. rewrite existsb_map. simpl snd.
@@ -170,7 +168,7 @@ Section Rebalance.
     ls_size E (sp_param sp) (sp_fee sp) (fun a => snap_find a snap) fw = Ok target ->
     size_long_short sp E' (ssort K) snap = Some target.
   Proof.
-    intros HE NE. unfold ls_size. rewrite fw_repr. destruct K as [|k0 K0] eqn:EK; [congruence|]. rewrite <- EK. clear NE.
+    intros HE NE. unfold ls_size. rewrite fw_repr. destruct (list_case K) as [EK|(k0 & K0 & EK)]; [congruence|]. clear NE.
     assert (NEmap : map (fun a => (a, W a)) K <> []) by (rewrite EK; discriminate).
     destruct (map (fun a => (a, W a)) K) as [|x0 X0] eqn:EM; [congruence|]. rewrite <- EM. clear NEmap.
     unfold ls_normalise. rewrite !map_map. simpl snd.
@@ -204,11 +202,10 @@ Section Rebalance.
     rebalance sp st snap = Some (rebalance_orders target hold).
   Proof.
     intros H V HE SZ. unfold rebalance. rewrite H, V. rewrite <- H at 1. rewrite (assets_are_sorted_keys st H).
-    destruct K as [|k0 K0] eqn:EK.
-    - simpl. assert (F : fw = []) by (rewrite fw_repr, EK; reflexivity). rewrite F in SZ.
+    destruct (list_case K) as [EK|(k0 & K0 & EK)].
+    - rewrite EK. simpl. assert (F : fw = []) by (rewrite fw_repr, EK; reflexivity). rewrite F in SZ.
       destruct (sp_long_only sp); simpl in SZ; inversion SZ; reflexivity.
-    - rewrite <- EK.
-      assert (NE : K <> []) by (rewrite EK; discriminate).
+    - assert (NE : K <> []) by (rewrite EK; discriminate).
       assert (NS : ssort K <> []).
       { intro X. assert (P := ssort_perm K). rewrite X in P. apply Permutation_nil in P. congruence. }
       destruct (ssort K) as [|s0 S0] eqn:ES; [congruence|]. rewrite <- ES.
@@ -222,3 +219,44 @@ Section Rebalance.
       rewrite X. rewrite orders_agree; [rewrite H; reflexivity|]. rewrite TK. apply ssort_sorted.
   Qed.
 End Rebalance.
+
+(** instance 1: the fixed-weight session ([Spec] with a universe and a weight dictionary) *)
+Lemma rebalance_agree_fixed sp (ND : NoDup (map fst (sp_weights sp))) hold snap st E v target :
+  st_hold st = hold ->
+  value_of hold snap = Some v -> (E == st_cash st + v)%Q ->
+  (if sp_long_only sp
+   then lo_size E (sp_param sp) (sp_fee sp) (fun a => snap_find a snap)
+          (merge_weights (map (fun a => (a, 0%Q)) (full_assets (map fst hold) (sp_universe sp))) (sp_weights sp))
+   else ls_size E (sp_param sp) (sp_fee sp) (fun a => snap_find a snap)
+          (merge_weights (map (fun a => (a, 0%Q)) (full_assets (map fst hold) (sp_universe sp))) (sp_weights sp))) = Ok target ->
+  rebalance sp st snap = Some (rebalance_orders target hold).
+Proof.
+  apply rebalance_agree.
+  - apply (proj1 (proj2 (merged_weights_repr (map fst hold) (sp_universe sp) (sp_weights sp) ND))).
+  - intros st0 H. unfold assets_of. rewrite H. rewrite (sort_by_key_map (fun a => (a, tt))); [|reflexivity].
+    rewrite map_map. simpl. rewrite map_id. symmetry. apply assets_agree. exact ND.
+Qed.
+
+(** instance 2: the rules driven by a recorded target-allocation row [fw] (any alpha model): the
+    row is the weight dictionary, there is no separate universe, holdings are among its keys *)
+Definition with_alloc_keys_ok (hold : list (string * Z)) (fw : weights) : Prop :=
+  NoDup (map fst fw) /\ (forall a, In a (map fst hold) -> In a (map fst fw)).
+
+Lemma rebalance_agree_row sp fw hold snap st E v target :
+  with_alloc_keys_ok hold fw ->
+  st_hold st = hold ->
+  value_of hold snap = Some v -> (E == st_cash st + v)%Q ->
+  (if sp_long_only sp
+   then lo_size E (sp_param sp) (sp_fee sp) (fun a => snap_find a snap) fw
+   else ls_size E (sp_param sp) (sp_fee sp) (fun a => snap_find a snap) fw) = Ok target ->
+  rebalance (with_alloc sp fw) st snap = Some (rebalance_orders target hold).
+Proof.
+  intros [ND SUB]. apply (rebalance_agree (with_alloc sp fw) hold snap fw).
+  - cbn [with_alloc sp_weights]. apply keyed_repr. intros a x I. unfold wt. rewrite (w_find_in _ _ _ ND I). reflexivity.
+  - intros st0 H. unfold assets_of. rewrite H. cbn [with_alloc sp_universe sp_weights app].
+    rewrite (sort_by_key_map (fun a => (a, tt))); [|reflexivity]. rewrite map_map. simpl. rewrite map_id.
+    apply sorted_same_members; try apply ssort_sorted.
+    + apply ssort_nodup. rewrite uniq_dedup. apply dedup_nodup.
+    + apply ssort_nodup. exact ND.
+    + intro x. rewrite !ssort_in, uniq_dedup, dedup_in, in_app_iff. split; [intros [I|I]; auto|auto].
+Qed.
